@@ -211,6 +211,12 @@ fn main() {
                             Some("packed_contains_aligned")
                         } else if l.contains("E0133") && l.contains("__BindgenUnionField") {
                             Some("wrapper_union_bitfield_accessor_unsafe")
+                        } else if (l.contains("E0277") || l.contains("E0369")) && {
+                            // the type the error is about: `X`, `[X; N]`
+                            let named: Vec<String> = l.split('`').skip(1).step_by(2).map(|t| t.trim_start_matches('[').split(|c: char| !(c.is_alphanumeric() || c == '_')).next().unwrap_or("").to_owned()).collect();
+                            named.iter().any(|x| inv.get(x).map_or(false, |t| t.packed && !t.derives.contains("Copy")))
+                        } {
+                            Some("packed_noncopy_member")
                         } else if l.contains("E0277") && inconsistent && !l.contains("__Bindgen") && (l.contains("can't compare") || l.contains("is not satisfied")) {
                             Some("derive_supertrait_options")
                         } else { None };
